@@ -61,7 +61,13 @@ class CallMixin:
             orig = mod.aliases[name]
             target_module, level = mod.alias_modules[name]
             path = self.world.resolve_import_path(mod, target_module, level)
-            if path is not None:
+            if module.startswith("sidecar:") and target_module and target_module.startswith("contracts."):
+                import importlib
+                rel = f"sidecar:{target_module}"
+                if rel not in self.world.modules:
+                    self.world.load_sidecar(importlib.import_module(target_module).__file__, rel)
+                result = self.lookup_global(orig, rel, node, seen)
+            elif path is not None:
                 self.world.load(path)
                 target = self.world.modules[path]
                 if orig in target.functions or orig in target.classes or orig in target.consts \
@@ -415,8 +421,16 @@ class CallMixin:
         elif len(qual) == 2 and qual[0] in mod.classes:
             cls = mod.classes[qual[0]]
             node = cls.methods.get(qual[1])
+        if node is None and qual[-1] == "<lambda>":
+            code = fn.__code__
+            wanted = list(code.co_varnames[:code.co_argcount])
+            for cand in ast.walk(mod.tree):
+                if isinstance(cand, ast.Lambda) and cand.lineno == code.co_firstlineno \
+                        and [a.arg for a in cand.args.args] == wanted:
+                    node = cand
+                    break
         if node is None:
-            raise Unsupported(f"cannot locate source of spec function {fn.__qualname__} (use def, not lambda)")
+            raise Unsupported(f"cannot locate source of spec function {fn.__qualname__}")
         result = FuncV(node, relname, fn.__qualname__, is_spec=True)
         self.global_cache[key] = result
         return result
@@ -442,7 +456,8 @@ class CallMixin:
         functional = con.__dict__.get("functional")
         if functional is not None:
             spec_fn = functional if callable(functional) else dsl.SPECS[functional]
-            return self.eval_named(spec_fn, bound)
+            spec_fv = self.sidecar_function(spec_fn)
+            return self.pure_call(spec_fv, [bound[n] for n in names if n in bound][:len(spec_fv.node.args.args)])
         if ctx.quant_depth:
             raise Unsupported(f"non-functional contract {label} used under a quantifier")
         returns = con.__dict__.get("returns")
